@@ -357,17 +357,18 @@ Proof.
   induction fs as [|f r IHr]; simpl; auto. now rewrite IH, IHr.
 Qed.
 
-Lemma resolve_fresh_no_alias s x : paliases (resolve true s x) = [].
+Lemma resolve_fresh_no_alias s x : paliases (resolve true true s x) = [].
 Proof.
-  revert x. fix IH 1. intros [z|fs|k]; simpl; auto.
+  revert x. fix IH 1. intros [z|fs|k|k]; simpl; auto.
   - induction fs as [|f r IHr]; simpl; auto. now rewrite IH, IHr.
+  - destruct (nth_error (dfl s) k); simpl; auto. apply of_tree_no_alias.
   - destruct (nth_error (dfl s) k); simpl; auto. apply of_tree_no_alias.
 Qed.
 
 Lemma flat_map_nil {A B} (f : A -> list B) l : (forall x, In x l -> f x = []) -> flat_map f l = [].
 Proof. induction l; simpl; auto. intros H. rewrite H, IHl; auto. Qed.
 
-Lemma no_alias_fresh s fs : flat_map paliases (map (resolve true s) fs) = [].
+Lemma no_alias_fresh s fs : flat_map paliases (map (resolve true true s) fs) = [].
 Proof. apply flat_map_nil. intros p Hp. apply in_map_iff in Hp as (x & <- & _). apply resolve_fresh_no_alias. Qed.
 
 Lemma no_alias_deep h rec : flat_map paliases (map (deep_p h) rec) = [].
@@ -432,17 +433,38 @@ Inductive write_shape (s s' : state) (r : nat) : Prop :=
     nth_error (hp s) t = Some c -> sub_refs c' c ->
     s' = mkState (set_nth t c' (hp s)) (dfl s) (insts s) -> write_shape s s' r.
 
-Lemma write_shape_ok s r path k z : write_shape s (write s r path k z) r.
+Lemma write_gen_shape_ok s r path f : (forall c, sub_refs (f c) c) -> write_shape s (write_gen s r path f) r.
 Proof.
-  unfold write. destruct (nth_error (insts s) r) as [rec|] eqn:Er; [|now apply ws_same].
+  intros Hf. unfold write_gen. destruct (nth_error (insts s) r) as [rec|] eqn:Er; [|now apply ws_same].
   destruct path as [|i rest].
-  - eapply ws_top; eauto using sub_refs_set.
+  - eapply ws_top; eauto.
   - destruct (nth_error rec i) as [[z0|l]|] eqn:Ei; try now apply ws_same.
     destruct (walk (hp s) l rest) as [t|] eqn:Ew; [|now apply ws_same].
     destruct (nth_error (hp s) t) as [c|] eqn:Et; [|now apply ws_same].
-    eapply ws_heap; eauto using sub_refs_set.
+    eapply ws_heap; eauto.
     exists l. split; [eapply nth_error_In; eauto|eapply walk_reach; eauto].
 Qed.
+
+Lemma write_shape_ok s r path k z : write_shape s (write s r path k z) r.
+Proof. apply write_gen_shape_ok. intros c. apply sub_refs_set. Qed.
+
+(* in-place list operations only ever DROP references or add immutable values *)
+Lemma in_removelast {A} (x : A) l : In x (removelast l) -> In x l.
+Proof.
+  induction l as [|a l IH]; simpl; auto. destruct l as [|b l]; [intros []|].
+  intros [E|H]; auto.
+Qed.
+
+Lemma sub_refs_mut m c : sub_refs (mut_cell m c) c.
+Proof.
+  destruct m as [z| |]; intros j H; simpl in H.
+  - apply in_app_or in H as [H|[H|[]]]; auto. discriminate.
+  - now apply in_removelast.
+  - destruct H.
+Qed.
+
+Lemma mutate_shape_ok s r path m : write_shape s (mutate s r path m) r.
+Proof. apply write_gen_shape_ok. intros c. apply sub_refs_mut. Qed.
 
 Lemma write_inv s s' r : write_shape s s' r -> Inv s -> Inv s'.
 Proof.
@@ -492,22 +514,22 @@ Proof.
     eapply hw_frame; eauto. intros Rl. eapply (S r' r); eauto. exists l; auto.
 Qed.
 (* ------------------------------------------------------------------ one step *)
-Definition update_state (s : state) (dst : nat) (ov : list (option Z)) (rec : cell) : state :=
-  mkState (fst (alloc_list (upd_list (hp s) ov rec) (hp s))) (dfl s)
-          (set_nth dst (snd (alloc_list (upd_list (hp s) ov rec) (hp s))) (insts s)).
+Definition update_state (m : umode) (s : state) (dst : nat) (ov : list (option Z)) (rec : cell) : state :=
+  mkState (fst (alloc_list (upd_list m (hp s) ov rec) (hp s))) (dfl s)
+          (set_nth dst (snd (alloc_list (upd_list m (hp s) ov rec) (hp s))) (insts s)).
 
 Lemma step_update c s dst src ov : step c s (OUpdate dst src ov) =
   match nth_error (insts s) dst, nth_error (insts s) src with
-  | Some _, Some rec => update_state s dst ov rec
+  | Some _, Some rec => update_state (upd c) s dst ov rec
   | _, _ => s
   end.
 Proof.
   simpl. destruct (nth_error (insts s) dst); auto. destruct (nth_error (insts s) src) as [rec|]; auto.
-  unfold update_state. now destruct (alloc_list (upd_list (hp s) ov rec) (hp s)).
+  unfold update_state. now destruct (alloc_list (upd_list (upd c) (hp s) ov rec) (hp s)).
 Qed.
 
-Lemma upd_list_aliases h : forall rec ov a,
-  In a (flat_map paliases (upd_list h ov rec)) -> In a (flat_map paliases (map (shallow_p h) rec)).
+Lemma upd_list_aliases m h : forall rec ov a,
+  In a (flat_map paliases (upd_list m h ov rec)) -> In a (flat_map paliases (map (upd_p m h) rec)).
 Proof.
   induction rec as [|v r IH]; intros ov a Ha; simpl in *; auto.
   destruct ov as [|[z|] ro]; simpl in Ha.
@@ -516,34 +538,52 @@ Proof.
   - apply in_app_or in Ha as [Ha|Ha]; apply in_or_app; eauto.
 Qed.
 
-Lemma shallow_aliases s ov rec a : Inv s -> In rec (insts s) ->
-  In a (flat_map paliases (upd_list (hp s) ov rec)) -> clean s a.
+(* whatever the copy mode of update_from_other_container: the aliases it creates point into the SOURCE instance
+   (never into a class default) *)
+Lemma shallow_aliases m s ov rec a : Inv s -> In rec (insts s) ->
+  In a (flat_map paliases (upd_list m (hp s) ov rec)) -> clean s a.
 Proof.
   intros [W D F I] Hr Ha. apply upd_list_aliases in Ha. apply in_flat_map in Ha as (p & Hp & Ha).
-  apply in_map_iff in Hp as ([z|l] & <- & Hl); simpl in Ha; [destruct Ha|].
-  destruct (nth_error (hp s) l) as [c|] eqn:E; simpl in Ha; [|destruct Ha].
-  apply in_flat_map in Ha as (q & Hq & Ha). apply in_map_iff in Hq as ([z|j] & <- & Hj); simpl in Ha; [destruct Ha|].
-  destruct Ha as [<-|[]].
-  pose proof (W _ _ _ E Hj) as Ljl. pose proof (F _ Hr _ Hl) as Ll.
-  split; [lia|]. intros d k Hd Rk Rd. eapply I; [exact Hr|exact Hd| |exact Rd].
-  exists l. split; auto. eapply reach_trans; [|exact Rk]. econstructor; [constructor|exact E|exact Hj].
+  apply in_map_iff in Hp as ([z|l] & <- & Hl); [destruct m; simpl in Ha; try (unfold deep_p in Ha; rewrite value_f_imm in Ha; simpl in Ha); destruct Ha|].
+  destruct m; simpl in Ha.
+  - (* UAlias: the member object itself *)
+    destruct Ha as [<-|[]]. pose proof (F _ Hr _ Hl) as Ll. split; auto.
+    intros d k Hd Rk Rd. eapply I; [exact Hr|exact Hd| |exact Rd]. exists l; auto.
+  - (* UShallow: the objects one level below *)
+    destruct (nth_error (hp s) l) as [c|] eqn:E; simpl in Ha; [|destruct Ha].
+    apply in_flat_map in Ha as (q & Hq & Ha). apply in_map_iff in Hq as ([z|j] & <- & Hj); simpl in Ha; [destruct Ha|].
+    destruct Ha as [<-|[]].
+    pose proof (W _ _ _ E Hj) as Ljl. pose proof (F _ Hr _ Hl) as Ll.
+    split; [lia|]. intros d k Hd Rk Rd. eapply I; [exact Hr|exact Hd| |exact Rd].
+    exists l. split; auto. eapply reach_trans; [|exact Rk]. econstructor; [constructor|exact E|exact Hj].
+  - (* UDeep: none *)
+    unfold deep_p in Ha. now rewrite of_tree_no_alias in Ha.
+Qed.
+
+Lemma upd_deep_no_alias h ov rec : flat_map paliases (upd_list UDeep h ov rec) = [].
+Proof.
+  destruct (flat_map paliases (upd_list UDeep h ov rec)) as [|a r] eqn:E; auto.
+  assert (Ha : In a (flat_map paliases (upd_list UDeep h ov rec))) by (rewrite E; simpl; auto).
+  apply upd_list_aliases in Ha. apply in_flat_map in Ha as (p & Hp & Ha).
+  apply in_map_iff in Hp as (v & <- & _). simpl in Ha. unfold deep_p in Ha. now rewrite of_tree_no_alias in Ha.
 Qed.
 
 Lemma step_dfl c s o : dfl (step c s o) = dfl s.
 Proof.
-  destruct o as [fs|fs|r|r|dst src ov|r path k z]; try rewrite step_update; simpl;
+  destruct o as [fs|fs|r|r|dst src ov|r path k z|r path m]; try rewrite step_update; simpl;
     rewrite ?build_eq; simpl; auto.
   - destruct (nth_error (insts s) r); auto. destruct (mkcopy_deep c); rewrite ?build_eq; auto.
   - destruct (nth_error (insts s) r); rewrite ?build_eq; auto.
   - destruct (nth_error (insts s) dst); auto. destruct (nth_error (insts s) src); auto.
   - destruct (write_shape_ok s r path k z) as [->|? ? ? ? ->|? ? ? ? ? ? ? ? ->]; auto.
+  - destruct (mutate_shape_ok s r path m) as [->|? ? ? ? ->|? ? ? ? ? ? ? ? ->]; auto.
 Qed.
 
-Lemma step_inv c s o : parse_fresh c = true -> Inv s -> Inv (step c s o).
+Lemma step_inv c s o : parse_fresh c = true -> arg_fresh c = true -> Inv s -> Inv (step c s o).
 Proof.
-  intros PF HI. destruct o as [fs|fs|r|r|dst src ov|r path k z]; try rewrite step_update; simpl.
-  - apply build_inv; auto. apply clean_nil, no_alias_fresh.
-  - rewrite PF. apply build_inv; auto. apply clean_nil, no_alias_fresh.
+  intros PF AF HI. destruct o as [fs|fs|r|r|dst src ov|r path k z|r path m]; try rewrite step_update; simpl.
+  - rewrite AF. apply build_inv; auto. apply clean_nil, no_alias_fresh.
+  - rewrite PF, AF. apply build_inv; auto. apply clean_nil, no_alias_fresh.
   - destruct (nth_error (insts s) r) as [rec|] eqn:Er; auto. destruct (mkcopy_deep c).
     + apply build_inv; auto. apply clean_nil, no_alias_deep.
     + destruct HI as [W D F I]. apply nth_error_In in Er. constructor; simpl; auto.
@@ -557,35 +597,78 @@ Proof.
     + intros a Ha. eapply shallow_aliases; eauto. eapply nth_error_In; eauto.
     + intros x Hx. apply in_set_nth in Hx. destruct Hx; auto.
   - eapply write_inv; eauto using write_shape_ok.
+  - eapply write_inv; eauto using mutate_shape_ok.
 Qed.
 
-Lemma step_sep c s o : parse_fresh c = true -> mkcopy_deep c = true -> is_update o = false ->
-  Inv s -> Sep s -> Sep (step c s o).
+Lemma step_sep c s o : parse_fresh c = true -> mkcopy_deep c = true -> arg_fresh c = true ->
+  is_update o = false -> Inv s -> Sep s -> Sep (step c s o).
 Proof.
-  intros PF MD NU HI S. destruct o as [fs|fs|r|r|dst src ov|r path k z]; simpl; try discriminate.
-  - apply build_sep; auto. apply no_alias_fresh.
-  - rewrite PF. apply build_sep; auto. apply no_alias_fresh.
+  intros PF MD AF NU HI S. destruct o as [fs|fs|r|r|dst src ov|r path k z|r path m]; simpl; try discriminate.
+  - rewrite AF. apply build_sep; auto. apply no_alias_fresh.
+  - rewrite PF, AF. apply build_sep; auto. apply no_alias_fresh.
   - destruct (nth_error (insts s) r) as [rec|] eqn:Er; auto. rewrite MD.
     apply build_sep; auto. apply no_alias_deep.
   - destruct (nth_error (insts s) r) as [rec|] eqn:Er; auto.
     apply build_sep; auto. apply no_alias_deep.
   - eapply write_sep; eauto using write_shape_ok.
+  - eapply write_sep; eauto using mutate_shape_ok.
+Qed.
+
+(* allocation of an alias-free record that REPLACES (or extends by) the record at position p *)
+Lemma alloc_sep s ps insts' p :
+  Inv s -> Sep s -> flat_map paliases ps = [] ->
+  (forall i ri, nth_error insts' i = Some ri ->
+     (i <> p /\ nth_error (insts s) i = Some ri) \/ (i = p /\ ri = snd (alloc_list ps (hp s)))) ->
+  Sep (mkState (fst (alloc_list ps (hp s))) (dfl s) insts').
+Proof.
+  intros [W D F I] S A Hi.
+  assert (C : forall a, In a (flat_map paliases ps) -> a < length (hp s)) by (rewrite A; intros a []).
+  destruct (alloc_list_spec ps (hp s) W C) as ((ext & E) & W' & F' & R' & _).
+  set (h' := fst (alloc_list ps (hp s))) in *. set (vs := snd (alloc_list ps (hp s))) in *.
+  assert (Old : forall i ri k, nth_error insts' i = Some ri -> i <> p ->
+                               creach h' ri k -> nth_error (insts s) i = Some ri /\ creach (hp s) ri k).
+  { intros i ri k Hn Np Rc. destruct (Hi _ _ Hn) as [[_ Ho]|[Ep _]]; [|congruence]. split; auto.
+    rewrite E in Rc. apply (creach_ext _ _ _ W (F _ (nth_error_In _ _ Ho))) in Rc. auto. }
+  assert (New : forall i ri k, nth_error insts' i = Some ri -> i = p -> creach h' ri k -> length (hp s) <= k).
+  { intros i ri k Hn Ep Rc. destruct (Hi _ _ Hn) as [[Np _]|[_ ->]]; [congruence|].
+    destruct (R' k Rc) as [?|(a & Ha & _)]; auto. rewrite A in Ha. destruct Ha. }
+  intros i j ri rj k Nij Hi' Hj Ri Rj. simpl in *.
+  destruct (Nat.eq_dec i p) as [Ei|Ni], (Nat.eq_dec j p) as [Ej|Nj].
+  - congruence.
+  - pose proof (New _ _ _ Hi' Ei Ri). destruct (Old _ _ _ Hj Nj Rj) as [Hj' Rj'].
+    pose proof (creach_lt _ _ _ W (F _ (nth_error_In _ _ Hj')) Rj'). lia.
+  - pose proof (New _ _ _ Hj Ej Rj). destruct (Old _ _ _ Hi' Ni Ri) as [Hi'' Ri'].
+    pose proof (creach_lt _ _ _ W (F _ (nth_error_In _ _ Hi'')) Ri'). lia.
+  - destruct (Old _ _ _ Hi' Ni Ri), (Old _ _ _ Hj Nj Rj). eapply (S i j); eauto.
+Qed.
+
+(* with a DEEP-copying update_from_other_container every operation keeps the instances separated *)
+Lemma step_sep_deep c s o : parse_fresh c = true -> mkcopy_deep c = true -> arg_fresh c = true ->
+  upd c = UDeep -> Inv s -> Sep s -> Sep (step c s o).
+Proof.
+  intros PF MD AF UD HI S. destruct (is_update o) eqn:U; [|now apply step_sep].
+  destruct o as [fs|fs|r|r|dst src ov|r path k z|r path m]; try discriminate.
+  rewrite step_update, UD.
+  destruct (nth_error (insts s) dst) as [rd|] eqn:Ed; auto.
+  destruct (nth_error (insts s) src) as [rec|] eqn:Es; auto.
+  apply (alloc_sep s _ _ dst); auto using upd_deep_no_alias.
+  intros i ri Hn. apply nth_error_set_nth in Hn. destruct Hn as [[<- ->]|[N Hn]]; auto.
 Qed.
 
 Lemma aliases_lt s ps : (forall a, In a (flat_map paliases ps) -> clean s a) ->
   forall a, In a (flat_map paliases ps) -> a < length (hp s).
 Proof. intros C a Ha. apply (C a Ha). Qed.
 
-Lemma step_default_frame c s o : parse_fresh c = true -> Inv s ->
+Lemma step_default_frame c s o : parse_fresh c = true -> arg_fresh c = true -> Inv s ->
   forall d n, In d (dfl s) -> value_f n (hp (step c s o)) (Ref d) = value_f n (hp s) (Ref d).
 Proof.
-  intros PF HI d n Hd. pose proof (inv_dfl _ HI d Hd) as Ld.
+  intros PF AF HI d n Hd. pose proof (inv_dfl _ HI d Hd) as Ld.
   assert (B : forall ps, flat_map paliases ps = [] ->
                          value_f n (hp (build s ps)) (Ref d) = value_f n (hp s) (Ref d)).
   { intros ps A. rewrite build_eq. simpl. apply alloc_values; auto. rewrite A. intros a []. }
-  destruct o as [fs|fs|r|r|dst src ov|r path k z]; try rewrite step_update; simpl.
-  - apply B, no_alias_fresh.
-  - rewrite PF. apply B, no_alias_fresh.
+  destruct o as [fs|fs|r|r|dst src ov|r path k z|r path m]; try rewrite step_update; simpl.
+  - rewrite AF. apply B, no_alias_fresh.
+  - rewrite PF, AF. apply B, no_alias_fresh.
   - destruct (nth_error (insts s) r) as [rec|]; auto. destruct (mkcopy_deep c); auto. apply B, no_alias_deep.
   - destruct (nth_error (insts s) r) as [rec|]; auto. apply B, no_alias_deep.
   - destruct (nth_error (insts s) dst) as [rd|] eqn:Ed; auto.
@@ -593,22 +676,23 @@ Proof.
     simpl. apply alloc_values; auto. apply aliases_lt. intros a Ha.
     eapply shallow_aliases; eauto. eapply nth_error_In; eauto.
   - eapply write_default_frame; eauto using write_shape_ok.
+  - eapply write_default_frame; eauto using mutate_shape_ok.
 Qed.
 
-Lemma step_inst_frame c s o r' n : parse_fresh c = true -> Inv s -> Sep s ->
+Lemma step_inst_frame c s o r' n : parse_fresh c = true -> arg_fresh c = true -> Inv s -> Sep s ->
   target o <> Some r' -> r' < length (insts s) ->
   inst_values n (step c s o) r' = inst_values n s r'.
 Proof.
-  intros PF HI S T L.
+  intros PF AF HI S T L.
   assert (B : forall ps, flat_map paliases ps = [] -> inst_values n (build s ps) r' = inst_values n s r').
   { intros ps A. rewrite build_eq. unfold inst_values. simpl. rewrite nth_error_app1 by auto.
     destruct (nth_error (insts s) r') as [rec|] eqn:E; simpl; auto. f_equal.
     apply map_ext_in. intros v Hv. apply alloc_values; auto.
     - rewrite A. intros a [].
     - pose proof (inv_fits _ HI _ (nth_error_In _ _ E)) as Fr. destruct v; simpl; auto. }
-  destruct o as [fs|fs|r|r|dst src ov|r path k z]; try rewrite step_update; simpl.
-  - apply B, no_alias_fresh.
-  - rewrite PF. apply B, no_alias_fresh.
+  destruct o as [fs|fs|r|r|dst src ov|r path k z|r path m]; try rewrite step_update; simpl.
+  - rewrite AF. apply B, no_alias_fresh.
+  - rewrite PF, AF. apply B, no_alias_fresh.
   - destruct (nth_error (insts s) r) as [rec|]; auto. destruct (mkcopy_deep c); [apply B, no_alias_deep|].
     unfold inst_values. simpl. now rewrite nth_error_app1 by auto.
   - destruct (nth_error (insts s) r) as [rec|]; auto. apply B, no_alias_deep.
@@ -620,6 +704,7 @@ Proof.
     + apply aliases_lt. intros a Ha. eapply shallow_aliases; eauto. eapply nth_error_In; eauto.
     + pose proof (inv_fits _ HI _ (nth_error_In _ _ E)) as Fr. destruct v; simpl; auto.
   - eapply write_inst_frame; eauto using write_shape_ok. simpl in T. congruence.
+  - eapply write_inst_frame; eauto using mutate_shape_ok. simpl in T. congruence.
 Qed.
 
 (* ------------------------------------------------------------------ histories *)
@@ -645,24 +730,31 @@ Qed.
 Lemma run_snoc c s ops o : run c s (ops ++ [o]) = step c (run c s ops) o.
 Proof. unfold run. now rewrite fold_left_app. Qed.
 
-Lemma run_inv c : parse_fresh c = true -> forall ops s, Inv s -> Inv (run c s ops).
-Proof. intros PF; induction ops as [|o ops IH]; simpl; intros s HI; auto. apply IH. apply step_inv; auto. Qed.
+Lemma run_inv c : parse_fresh c = true -> arg_fresh c = true -> forall ops s, Inv s -> Inv (run c s ops).
+Proof. intros PF AF; induction ops as [|o ops IH]; simpl; intros s HI; auto. apply IH. apply step_inv; auto. Qed.
 
 Lemma run_dfl c : forall ops s, dfl (run c s ops) = dfl s.
 Proof. induction ops as [|o ops IH]; simpl; intros s; auto. rewrite IH. apply step_dfl. Qed.
 
-Lemma run_sep c : parse_fresh c = true -> mkcopy_deep c = true ->
+Lemma run_sep c : parse_fresh c = true -> mkcopy_deep c = true -> arg_fresh c = true ->
   forall ops s, no_update ops -> Inv s -> Sep s -> Sep (run c s ops).
 Proof.
-  intros PF MD; induction ops as [|o ops IH]; simpl; intros s NU HI S; auto.
+  intros PF MD AF; induction ops as [|o ops IH]; simpl; intros s NU HI S; auto.
   unfold no_update in NU. simpl in NU. apply andb_prop in NU as [N1 N2].
   apply negb_true_iff in N1. apply IH; auto using step_inv, step_sep.
 Qed.
 
-Lemma run_default_frame c : parse_fresh c = true -> forall ops s, Inv s ->
+Lemma run_sep_deep c : parse_fresh c = true -> mkcopy_deep c = true -> arg_fresh c = true -> upd c = UDeep ->
+  forall ops s, Inv s -> Sep s -> Sep (run c s ops).
+Proof.
+  intros PF MD AF UD; induction ops as [|o ops IH]; simpl; intros s HI S; auto.
+  apply IH; auto using step_inv, step_sep_deep.
+Qed.
+
+Lemma run_default_frame c : parse_fresh c = true -> arg_fresh c = true -> forall ops s, Inv s ->
   forall d n, In d (dfl s) -> value_f n (hp (run c s ops)) (Ref d) = value_f n (hp s) (Ref d).
 Proof.
-  intros PF; induction ops as [|o ops IH]; simpl; intros s HI d n Hd; auto.
+  intros PF AF; induction ops as [|o ops IH]; simpl; intros s HI d n Hd; auto.
   rewrite IH; auto using step_inv.
   - apply step_default_frame; auto.
   - now rewrite step_dfl.
@@ -680,10 +772,13 @@ Qed.
 
 Lemma resolve_same s s0 : Inv s -> Inv s0 -> dfl s = dfl s0 -> length (hp s0) <= length (hp s) ->
   (forall d n, In d (dfl s0) -> value_f n (hp s) (Ref d) = value_f n (hp s0) (Ref d)) ->
-  forall x, resolve true s x = resolve true s0 x.
+  forall x, resolve true true s x = resolve true true s0 x.
 Proof.
-  intros HI HI0 ED L V. fix IH 1. intros [z|fs|k]; simpl; auto.
+  intros HI HI0 ED L V. fix IH 1. intros [z|fs|k|k]; simpl; auto.
   - f_equal. induction fs as [|f r IHr]; simpl; auto. now rewrite IH, IHr.
+  - rewrite ED. destruct (nth_error (dfl s0) k) as [d|] eqn:E; auto.
+    unfold deep_p. f_equal. apply nth_error_In in E. rewrite V by auto.
+    apply value_f_mono; [apply HI0| |]; simpl; pose proof (inv_dfl _ HI0 d E); lia.
   - rewrite ED. destruct (nth_error (dfl s0) k) as [d|] eqn:E; auto.
     unfold deep_p. f_equal. apply nth_error_In in E. rewrite V by auto.
     apply value_f_mono; [apply HI0| |]; simpl; pose proof (inv_dfl _ HI0 d E); lia.
@@ -718,12 +813,14 @@ Qed.
 
 Lemma step_len c s o : length (hp s) <= length (hp (step c s o)).
 Proof.
-  destruct o as [fs|fs|r|r|dst src ov|r path k z]; try rewrite step_update; simpl;
+  destruct o as [fs|fs|r|r|dst src ov|r path k z|r path m]; try rewrite step_update; simpl;
     rewrite ?build_eq; simpl; auto using alloc_list_len.
   - destruct (nth_error (insts s) r); auto. destruct (mkcopy_deep c); rewrite ?build_eq; simpl; auto using alloc_list_len.
   - destruct (nth_error (insts s) r); rewrite ?build_eq; simpl; auto using alloc_list_len.
   - destruct (nth_error (insts s) dst); auto. destruct (nth_error (insts s) src); simpl; auto using alloc_list_len.
   - destruct (write_shape_ok s r path k z) as [->|? ? ? ? ->|? ? ? ? ? ? ? ? ->]; simpl; auto.
+    rewrite set_nth_length. auto.
+  - destruct (mutate_shape_ok s r path m) as [->|? ? ? ? ->|? ? ? ? ? ? ? ? ->]; simpl; auto.
     rewrite set_nth_length. auto.
 Qed.
 
@@ -735,32 +832,43 @@ Qed.
 
 (* ================================================================== main results *)
 
-(* SEPARATION FRAME: under separation, an operation aimed at one instance (or at none) leaves the value
-   of every other instance as it was. *)
-Theorem separation_frame c s o r' n : parse_fresh c = true -> Inv s -> Sep s ->
+(* SEPARATION FRAME: under separation, an operation aimed at one instance (or at none) -- construct, parse,
+   copy, update, write, in-place list operation -- leaves the value of every other instance as it was. *)
+Theorem separation_frame c s o r' n : parse_fresh c = true -> arg_fresh c = true -> Inv s -> Sep s ->
   target o <> Some r' -> r' < length (insts s) ->
   inst_values n (step c s o) r' = inst_values n s r'.
 Proof. apply step_inst_frame. Qed.
 
-Theorem reachable_inv c ds ops : parse_fresh c = true -> Inv (run c (init ds) ops).
-Proof. intros PF. apply run_inv; auto. apply init_inv. Qed.
+Theorem reachable_inv c ds ops : parse_fresh c = true -> arg_fresh c = true -> Inv (run c (init ds) ops).
+Proof. intros PF AF. apply run_inv; auto. apply init_inv. Qed.
 
-Theorem reachable_sep c ds ops : parse_fresh c = true -> mkcopy_deep c = true -> no_update ops ->
-  Sep (run c (init ds) ops).
-Proof. intros PF MD NU. apply run_sep; auto; apply init_inv. Qed.
+Theorem reachable_sep c ds ops : parse_fresh c = true -> mkcopy_deep c = true -> arg_fresh c = true ->
+  no_update ops -> Sep (run c (init ds) ops).
+Proof. intros PF MD AF NU. apply run_sep; auto; apply init_inv. Qed.
 
-Theorem defaults_constant c ds ops k n : parse_fresh c = true ->
+(* a separated heap stays separated under EVERY operation sequence once update copies deeply *)
+Theorem reachable_sep_deep c ds ops : parse_fresh c = true -> mkcopy_deep c = true -> arg_fresh c = true ->
+  upd c = UDeep -> Sep (run c (init ds) ops).
+Proof. intros PF MD AF UD. apply run_sep_deep; auto; apply init_inv. Qed.
+
+Theorem sep_preserved c s ops : parse_fresh c = true -> mkcopy_deep c = true -> arg_fresh c = true ->
+  (upd c = UDeep \/ no_update ops) -> Inv s -> Sep s -> Inv (run c s ops) /\ Sep (run c s ops).
+Proof.
+  intros PF MD AF [UD|NU] HI S; split; auto using run_inv, run_sep, run_sep_deep.
+Qed.
+
+Theorem defaults_constant c ds ops k n : parse_fresh c = true -> arg_fresh c = true ->
   default_value n (run c (init ds) ops) k = default_value n (init ds) k.
 Proof.
-  intros PF. unfold default_value. rewrite run_dfl.
+  intros PF AF. unfold default_value. rewrite run_dfl.
   destruct (nth_error (dfl (init ds)) k) as [d|] eqn:E; simpl; auto. f_equal.
   apply run_default_frame; auto. apply init_inv. eapply nth_error_In; eauto.
 Qed.
 
-Theorem new_constant c ds ops fs n : parse_fresh c = true ->
+Theorem new_constant c ds ops fs n : parse_fresh c = true -> arg_fresh c = true ->
   last_values n (step c (run c (init ds) ops) (ONew fs)) = last_values n (step c (init ds) (ONew fs)).
 Proof.
-  intros PF. simpl. set (s0 := init ds). set (s := run c s0 ops).
+  intros PF AF. simpl. rewrite AF. set (s0 := init ds). set (s := run c s0 ops).
   assert (HI0 : Inv s0) by apply init_inv.
   assert (HI : Inv s) by (apply run_inv; auto).
   rewrite !last_values_build by auto using no_alias_fresh. f_equal.
@@ -779,6 +887,16 @@ Proof.
   intros NU T L. apply separation_frame; auto.
   - apply reachable_inv; auto.
   - apply reachable_sep; auto.
+Qed.
+
+(* with a deep-copying update the restriction on the history disappears *)
+Theorem instances_independent_deep ds ops o r' n : target o <> Some r' ->
+  r' < length (insts (run fixed_deep (init ds) ops)) ->
+  inst_values n (step fixed_deep (run fixed_deep (init ds) ops) o) r' = inst_values n (run fixed_deep (init ds) ops) r'.
+Proof.
+  intros T L. apply separation_frame; auto.
+  - apply reachable_inv; auto.
+  - apply reachable_sep_deep; auto.
 Qed.
 
 (* ------------------------------------------------------------------ what fails without the repairs *)
@@ -814,4 +932,31 @@ Definition wit_update_ops : list op :=
 Lemma update_shares :
   inst_values 4 (run fixed (init []) wit_update_ops) 0 = Some [TNode [TNode [TImm 9]]] /\
   check_C12 fixed [] wit_update_ops = false.
+Proof. vm_compute. repeat split. Qed.
+
+(* update that hands the member objects over by reference (lists are not XMLTypeBase values): an in-place
+   append on the destination's list shows up in the source *)
+Definition wit_byref_ops : list op :=
+  [ONew [XNode [XImm 1]]; ONew [XNode []]; OUpdate 1 0 []; OMut 1 [0] (MAppend 9)].
+
+Lemma update_byref_refuted :
+  inst_values 3 (run byref_update (init []) wit_byref_ops) 0 = Some [TNode [TImm 1; TImm 9]] /\
+  inst_values 3 (run fixed (init []) wit_byref_ops) 0 = Some [TNode [TImm 1]] /\
+  check_C12 byref_update [] wit_byref_ops = false /\
+  check_C12 fixed [] wit_byref_ops = true.
+Proof. vm_compute. repeat split. Qed.
+
+(* a constructor that stores its mutable default ARGUMENT: all instances built without that argument hold the
+   one list object; an in-place append on one changes the others, every later cls() and the default itself *)
+Definition wit_arg_ds : list tree := [TNode []].
+Definition wit_arg_ops : list op := [ONew [XImm 5; XArg 0]; ONew [XImm 6; XArg 0]; OMut 0 [1] (MAppend 7)].
+
+Lemma shared_arg_refuted :
+  inst_values 3 (run shared_arg (init wit_arg_ds) wit_arg_ops) 1 = Some [TImm 6; TNode [TImm 7]] /\
+  default_value 3 (run shared_arg (init wit_arg_ds) wit_arg_ops) 0 = Some (TNode [TImm 7]) /\
+  last_values 3 (step shared_arg (run shared_arg (init wit_arg_ds) wit_arg_ops) (ONew [XImm 0; XArg 0]))
+    = Some [TImm 0; TNode [TImm 7]] /\
+  last_values 3 (step shared_arg (init wit_arg_ds) (ONew [XImm 0; XArg 0])) = Some [TImm 0; TNode []] /\
+  check_C12 shared_arg wit_arg_ds wit_arg_ops = false /\
+  check_C12 fixed wit_arg_ds wit_arg_ops = true.
 Proof. vm_compute. repeat split. Qed.
